@@ -367,24 +367,24 @@ Proof.
   cbn in H. apply IH. exact H.
 Qed.
 
-Lemma read_cells_sim cf w :
+Lemma read_cells_sim known cf w :
   cf_ladder cf = true ->
   forall sh r0,
     Forall (fun vs => length vs = w) sh ->
     (stop_first cf = false \/
      forall t tvs, find_title sh r0 = Some (t, tvs) -> first_some_pos (map val_title tvs) 0 <> Some 0%nat) ->
-    out_sim (read_cells cf (index_rows r0 sh))
-            (read_cells (plain_of cf) (index_rows r0 (fill_sheet sh))).
+    out_sim (read_cells_k known cf (index_rows r0 sh))
+            (read_cells_k known (plain_of cf) (index_rows r0 (fill_sheet sh))).
 Proof.
   intros Hlad. induction sh as [|vs rest IH]; intros r0 Hw Hg.
   - cbn. split; reflexivity.
   - inversion Hw as [|? ? Hw1 Hw2]; subst. cbn [fill_sheet find_title] in *.
     destruct (vrow_blank vs) eqn:Eb.
-    + unfold read_cells. cbn [index_rows skip_blank]. rewrite !row_empty_index, Eb.
+    + unfold read_cells_k. cbn [index_rows skip_blank]. rewrite !row_empty_index, Eb.
       apply (IH (S r0) Hw2). exact Hg.
-    + unfold read_cells. cbn [index_rows skip_blank]. rewrite !row_empty_index, Eb.
+    + unfold read_cells_k. cbn [index_rows skip_blank]. rewrite !row_empty_index, Eb.
       rewrite !titles_of_index. cbn [cf_rules plain_of].
-      destruct (bind_all (cf_rules cf) (map val_title vs)) as [bs|e]; [|split; reflexivity].
+      destruct (bind_all_k known (cf_rules cf) (map val_title vs)) as [bs|e]; [|split; reflexivity].
       destruct (first_some_pos_nonblank vs 0 Eb) as [f Hf]. rewrite Hf.
       apply (iter_rows_sim cf bs f (length vs) Hlad) with (prevL := None) (prevP := None); auto.
       * destruct Hg as [Hg|Hg]; [left; exact Hg|right].
@@ -395,21 +395,21 @@ Qed.
 (* Reading a ladder table gives the same objects (and the same exception, if any) as reading the
    filled-in table plainly -- for the default end rule, and for "blank first" when the first
    sheet column is not part of the ladder (its title is blank). *)
-Lemma ladder_equiv_gen cf sh w :
+Lemma ladder_equiv_gen known cf sh w :
   Forall (fun vs => length vs = w) sh ->
   cf_ladder cf = true ->
   (stop_first cf = false \/ first_some_pos (sheet_titles sh) 0 <> Some 0%nat) ->
-  out_sim (read_table cf sh) (read_table (plain_of cf) (fill_sheet sh)).
+  out_sim (read_table_k known cf sh) (read_table_k known (plain_of cf) (fill_sheet sh)).
 Proof.
-  intros Hw Hlad Hg. unfold read_table, index_sheet. apply (read_cells_sim cf w Hlad sh 0 Hw).
+  intros Hw Hlad Hg. unfold read_table_k, index_sheet. apply (read_cells_sim known cf w Hlad sh 0 Hw).
   destruct Hg as [Hg|Hg]; [left; exact Hg|right]. intros t tvs Ht.
   unfold sheet_titles, title_row in Hg. rewrite Ht in Hg. exact Hg.
 Qed.
 
-Lemma ladder_equiv_l cf sh w :
+Lemma ladder_equiv_l known cf sh w :
   Forall (fun vs => length vs = w) sh -> cf_ladder cf = true -> stop_first cf = false ->
-  out_sim (read_table cf sh) (read_table (plain_of cf) (fill_sheet sh)).
-Proof. intros Hw Hl Hs. apply (ladder_equiv_gen cf sh w); auto. Qed.
+  out_sim (read_table_k known cf sh) (read_table_k known (plain_of cf) (fill_sheet sh)).
+Proof. intros Hw Hl Hs. apply (ladder_equiv_gen known cf sh w); auto. Qed.
 
 (* the faithful model violates the statement for stop_on = "blank first" *)
 Definition int_conv : conv := mkConv KInt None None None.
@@ -497,21 +497,21 @@ Proof.
         -- apply out_sim_prefix. split; reflexivity.
 Qed.
 
-Lemma read_cells_prefix cf :
+Lemma read_cells_prefix known cf :
   cf_ladder cf = true -> stop_first cf = true ->
   forall sh r0,
     (forall t tvs, find_title sh r0 = Some (t, tvs) -> first_some_pos (map val_title tvs) 0 = Some 0%nat) ->
-    out_prefix (read_cells cf (index_rows r0 sh))
-               (read_cells (plain_of cf) (index_rows r0 (fill_sheet sh))).
+    out_prefix (read_cells_k known cf (index_rows r0 sh))
+               (read_cells_k known (plain_of cf) (index_rows r0 (fill_sheet sh))).
 Proof.
   intros Hlad Hstop. induction sh as [|vs rest IH]; intros r0 Hg.
   - apply out_sim_prefix. split; reflexivity.
   - cbn [fill_sheet find_title] in *. destruct (vrow_blank vs) eqn:Eb.
-    + unfold read_cells. cbn [index_rows skip_blank]. rewrite !row_empty_index, Eb.
+    + unfold read_cells_k. cbn [index_rows skip_blank]. rewrite !row_empty_index, Eb.
       apply (IH (S r0)). exact Hg.
-    + unfold read_cells. cbn [index_rows skip_blank]. rewrite !row_empty_index, Eb.
+    + unfold read_cells_k. cbn [index_rows skip_blank]. rewrite !row_empty_index, Eb.
       rewrite !titles_of_index. cbn [cf_rules plain_of].
-      destruct (bind_all (cf_rules cf) (map val_title vs)) as [bs|e];
+      destruct (bind_all_k known (cf_rules cf) (map val_title vs)) as [bs|e];
         [|apply out_sim_prefix; split; reflexivity].
       rewrite (Hg r0 vs eq_refl).
       apply (iter_rows_prefix cf bs Hlad Hstop rest (S r0) None None).
@@ -521,27 +521,27 @@ Qed.
    table read plainly; either the two readings agree to the end (same exception, if any), or
    stop_on = "blank first", the ladder starts in the first sheet column, and the ladder reading
    ended without an exception (by rows_in_order: at a row whose first cell is blank). *)
-Lemma ladder_prefix_l cf sh w :
+Lemma ladder_prefix_l known cf sh w :
   Forall (fun vs => length vs = w) sh -> cf_ladder cf = true ->
   exists rest,
-    map item_vals (fst (read_table (plain_of cf) (fill_sheet sh))) =
-    map item_vals (fst (read_table cf sh)) ++ rest /\
-    ((rest = [] /\ snd (read_table cf sh) = snd (read_table (plain_of cf) (fill_sheet sh))) \/
+    map item_vals (fst (read_table_k known (plain_of cf) (fill_sheet sh))) =
+    map item_vals (fst (read_table_k known cf sh)) ++ rest /\
+    ((rest = [] /\ snd (read_table_k known cf sh) = snd (read_table_k known (plain_of cf) (fill_sheet sh))) \/
      (stop_first cf = true /\ first_some_pos (sheet_titles sh) 0 = Some 0%nat /\
-      snd (read_table cf sh) = None)).
+      snd (read_table_k known cf sh) = None)).
 Proof.
   intros Hw Hlad.
   destruct (stop_first cf) eqn:Hstop.
-  2:{ destruct (ladder_equiv_gen cf sh w Hw Hlad (or_introl Hstop)) as [H1 H2].
+  2:{ destruct (ladder_equiv_gen known cf sh w Hw Hlad (or_introl Hstop)) as [H1 H2].
       exists []. rewrite app_nil_r. auto. }
   destruct (first_some_pos (sheet_titles sh) 0) as [[|f]|] eqn:Ef.
-  - assert (Hp : out_prefix (read_table cf sh) (read_table (plain_of cf) (fill_sheet sh))).
-    { unfold read_table, index_sheet. apply (read_cells_prefix cf Hlad Hstop sh 0).
+  - assert (Hp : out_prefix (read_table_k known cf sh) (read_table_k known (plain_of cf) (fill_sheet sh))).
+    { unfold read_table_k, index_sheet. apply (read_cells_prefix known cf Hlad Hstop sh 0).
       intros t tvs Ht. unfold sheet_titles, title_row in Ef. rewrite Ht in Ef. exact Ef. }
     destruct Hp as [rest [H1 [H2|H2]]]; exists rest; auto.
-  - destruct (ladder_equiv_gen cf sh w Hw Hlad) as [H1 H2]; [right; rewrite Ef; discriminate|].
+  - destruct (ladder_equiv_gen known cf sh w Hw Hlad) as [H1 H2]; [right; rewrite Ef; discriminate|].
     exists []. rewrite app_nil_r. auto.
-  - destruct (ladder_equiv_gen cf sh w Hw Hlad) as [H1 H2]; [right; rewrite Ef; discriminate|].
+  - destruct (ladder_equiv_gen known cf sh w Hw Hlad) as [H1 H2]; [right; rewrite Ef; discriminate|].
     exists []. rewrite app_nil_r. auto.
 Qed.
 
@@ -626,7 +626,7 @@ Proof.
     inversion Hrun; subst; try (destruct j; discriminate).
     match goal with H : is_end _ _ = Ok false |- _ => rename H into Hend end.
     match goal with H : cur_row _ _ _ _ = Ok cur |- _ => rename H into Hc end.
-    match goal with H : run_ok _ _ _ (Some cur) _ _ _ |- _ => rename H into Hr end.
+    match goal with H : run_gen _ _ _ (Some cur) _ _ _ |- _ => rename H into Hr end.
     rewrite is_end_index in Hend. apply vis_end_nonblank in Hend.
     cbn [vfill_body]. rewrite Hend.
     unfold cur_row in Hc. rewrite Hlad in Hc.
@@ -683,10 +683,10 @@ Qed.
    a single-cell attribute, or the origin recorded under some key of a ranged attribute -- is a
    cell with title+1 <= r <= R that holds exactly what the filled-in table has at (R, c); and it
    is the object's own cell (r = R) whenever that cell is not blank. *)
-Lemma ladder_origins_l cf sh w items e t tvs j o i v og r c :
+Lemma ladder_origins_l known cf sh w items e t tvs j o i v og r c :
   Forall (fun vs => length vs = w) sh ->
   cf_ladder cf = true ->
-  read_table cf sh = (items, e) ->
+  read_table_k known cf sh = (items, e) ->
   title_row sh = Some (t, tvs) ->
   nth_error items j = Some (Some o) ->
   nth_error (o_attrs o) i = Some (v, og) ->
@@ -696,19 +696,19 @@ Lemma ladder_origins_l cf sh w items e t tvs j o i v og r c :
   (forall y, cell_at sh (S t + j) c = Some y -> val_empty y = false -> r = (S t + j)%nat).
 Proof.
   intros Hw Hlad Hread Ht Hj Hi Hog.
-  pose proof (read_table_run cf sh) as H. rewrite Ht in H.
+  pose proof (read_table_run known cf sh) as H. rewrite Ht in H.
   destruct H as [H1 [H2 [H3 H4]]]. cbv zeta in H4.
-  destruct (bind_all (cf_rules cf) (map val_title tvs)) as [bs|e0] eqn:Eb.
+  destruct (bind_all_k known (cf_rules cf) (map val_title tvs)) as [bs|e0] eqn:Eb.
   2:{ rewrite H4 in Hread. injection Hread as <- <-. destruct j; discriminate. }
   destruct H4 as [body [tr [e1 [Hb [Hrun Hr]]]]]. rewrite Hr in Hread.
   injection Hread as <- <-. rewrite nth_error_map in Hj.
   destruct (nth_error tr j) as [st|] eqn:Est; [|discriminate]. cbn in Hj. injection Hj as Hj.
   assert (Hnone : forall p : list cell, @None (list cell) = Some p -> row_ok sh (S t) (S t) 0 p)
     by (intros p Hp; discriminate).
-  destruct (run_inv sh (S t) cf bs _ body (S t) None tr e1 Hb (le_n _) Hnone Hrun j st Est)
+  destruct (run_inv sh (S t) cf _ _ body (S t) None tr e1 Hb (le_n _) Hnone Hrun j st Est)
     as [[vs [Hvs Hraw]] Hrow].
   destruct (run_construct _ _ _ _ _ _ _ Hrun j st Est) as [_ Hc]. rewrite Hj in Hc.
-  pose proof (construct_ok _ _ _ _ _ _ Eb Hc) as Hok.
+  pose proof (construct_ok _ _ _ _ _ _ _ Eb Hc) as Hok.
   (* the body rows are the sheet rows below the title *)
   assert (Hbody : body = skipn (S t) sh).
   { apply nth_error_ext'. intros k. rewrite Hb, nth_error_skipn'. reflexivity. }
